@@ -97,6 +97,7 @@ def run_trace(item):
     D.COMMENTS[0] = False
     D.ASOBJ[0] = bool(item.get("asobj"))
     M.RAISE[0] = True
+    M.VIAQUERY[0] = False
     sheet = cssutils.parseString("@media all { a { } } b { }")
     cssutils.ser.prefs.keepEmptyRules = True
     cssutils.log.raiseExceptions = True
